@@ -21,7 +21,7 @@ from . import c19_tables
 from . import c19_client as cl
 
 PROPERTY = 'C19'
-LEAN_TARGETS = ['CpProofs.C19', 'drv_c19']
+LEAN_TARGETS = ['CpProofs.C19', 'CpProofs.C19Md5', 'CpProofs.C19Sound', 'CpProofs.C19Wire', 'drv_c19']
 DRIVER = 'drv_c19'
 THEOREMS = [
     'CpProofs.C19.split1_iff',
@@ -68,6 +68,33 @@ THEOREMS = [
     'CpProofs.C19.tryDecodeHeader_utf8',
     'CpProofs.C19.digest_rfc2617_client_utf8',
     'CpProofs.C19.tools_hooked',
+    # round 2: the hash made concrete (RFC 1321 MD5 evaluated in the kernel), collision resistance made explicit
+    'CpProofs.C19.md5_rfc1321_test_suite',
+    'CpProofs.C19.md5Hex_isHex',
+    'CpProofs.C19.md5Hex_length',
+    'CpProofs.C19.rfc2617_section_3_5_example',
+    'CpProofs.C19.digest_md5_concrete',
+    'CpProofs.C19.basic_rfc7617_example',
+    'CpProofs.C19.digest_rfc2617_client_md5',
+    'CpProofs.C19.rfcDigest_ha1_inj',
+    'CpProofs.C19.digest_sound_password_or_collision',
+    'CpProofs.C19.digest_sound_ha1_or_collision',
+    'CpProofs.C19.nonce_binds_realm_key_or_collision',
+    'CpProofs.C19.nonce_colon_ambiguity',
+    # round 2: well-formed challenges, Request.process_headers in front of the tools
+    'CpProofs.C19.digestChallenge_wellformed',
+    'CpProofs.C19.digestChallenge_wellformed_md5',
+    'CpProofs.C19.digestChallenge_wellformed_full_false',
+    'CpProofs.C19.basicChallenge_wellformed',
+    'CpProofs.C19.processHeader_plain',
+    'CpProofs.C19.digestRequest_undecodable',
+    'CpProofs.C19.digestRequest_grant_iff',
+    'CpProofs.C19.basicRequest_grant_iff',
+    'CpProofs.C19.digestRequest_rfc2617_client_latin1',
+    'CpProofs.C19.digestRequest_rfc2617_client_utf8',
+    'CpProofs.C19.processHeader_basic',
+    'CpProofs.C19.basicRequest_rfc7617_client_utf8',
+    'CpProofs.C19.basic_colon_user_never',
 ]
 LEVEL = 'proof'
 TECHNIQUE = ('Lean 4 proof over a statement-by-statement model of basic_auth / digest_auth with the hash, base64, '
